@@ -70,8 +70,8 @@ type clientScript struct {
 	// InProcess requests at a time, waits for a free slot (or its context)
 	// before reading on, and returns only after all workers have written their
 	// results.
-	InProcess int
-	SerialBase     int
+	InProcess  int
+	SerialBase int
 }
 
 // writtenAnswer is a complete answer the scripted client got onto its stdout.
@@ -334,11 +334,25 @@ func (c *simClient) implInProcess(ctx context.Context, in io.ReadCloser, out io.
 		c.plans = append(c.plans, plan)
 		// wait for a free worker slot or cancellation
 		simrt.Yield("simclient.inproc.slot")
-		select {
-		case slots <- struct{}{}:
-			simrt.AfterBlock("simclient.inproc.slot")
-		case <-ctx.Done():
-			simrt.AfterBlock("simclient.inproc.slot")
+		// (never enter a select with two ready cases: the runtime would toss its own coin)
+		got := false
+		if ctx.Err() == nil {
+			select {
+			case slots <- struct{}{}:
+				got = true
+			default:
+			}
+		}
+		if !got && ctx.Err() == nil {
+			select {
+			case slots <- struct{}{}:
+				simrt.AfterBlock("simclient.inproc.slot")
+				got = true
+			case <-ctx.Done():
+				simrt.AfterBlock("simclient.inproc.slot")
+			}
+		}
+		if !got {
 			c.faultFired["in-process-cancelled-while-waiting-for-slot"]++
 			wait()
 			return ctx.Err()
